@@ -36,6 +36,9 @@ type Witness struct {
 	Tears    map[string]int    `json:"tears,omitempty"`     // file -> length kept at the last crash
 	Trace    []string          `json:"trace,omitempty"`     // completed sync events "gid site kind"
 	FSLog    []string          `json:"fslog,omitempty"`
+	// Image is the file-system content at the start of the phase in which the violation
+	// occurred (after the crash and its torn tails), when all of it is concrete.
+	Image map[string][]byte `json:"image,omitempty"`
 }
 
 type Violation struct {
@@ -143,7 +146,12 @@ type Machine struct {
 	inSummary  bool
 	origins    map[*value]origin
 	symArrs    map[*value]*symArr
+	phaseImage map[string][]byte
+	phaseRecords map[string]int64
 	hashLogs   map[*value][]*term.Term
+	OnlyAsserts  []string // assertion-id prefixes that count (empty = all)
+	IgnorePanics bool     // panics/deadlocks are another property's subject
+	StubS2     bool // always use the stub framing for s2 (never the real encoder)
 	SymIndex   bool // symbolic indices into scalar slices stay symbolic (ite chains) instead of being case-split
 	NoSummaries    bool
 	SummariesBuilt int
@@ -216,6 +224,17 @@ func (m *Machine) Run(fns []*ssa.Function, prefix []Decision) {
 	m.resetPath(prefix)
 	for i, fn := range fns {
 		m.Phase = i
+		m.phaseImage = nil
+		m.obs = nil // observables belong to the phase that produced them
+		m.phaseRecords = map[string]int64{}
+		for k, v := range m.records {
+			m.phaseRecords[k] = v
+		}
+		if i > 0 {
+			if img, ok := m.fs.Image(); ok {
+				m.phaseImage = img
+			}
+		}
 		end := m.runPhase(fn)
 		if end == "abort" {
 			return
@@ -281,9 +300,10 @@ func (m *Machine) runPhase(fn *ssa.Function) (end string) {
 
 func (m *Machine) witness(withObs bool) Witness {
 	w := Witness{Inputs: m.model(), Chooses: append([]int{}, m.chooses...), Coins: append([]int(nil), m.coins...)}
-	if len(m.records) > 0 {
+	// records as they stood when the current phase started (what a native re-run of the phase sees)
+	if len(m.phaseRecords) > 0 {
 		w.Records = map[string]int64{}
-		for k, v := range m.records {
+		for k, v := range m.phaseRecords {
 			w.Records[k] = v
 		}
 	}
@@ -295,6 +315,7 @@ func (m *Machine) witness(withObs bool) Witness {
 		}
 	}
 	w.Trace = append([]string(nil), m.trace...)
+	w.Image = m.phaseImage
 	if m.fs != nil {
 		w.FSLog = append([]string(nil), m.fs.OpLog...)
 	}
@@ -331,7 +352,7 @@ func (m *Machine) pathDone() {
 	if m.sol.Check(m.pc) != smt.Sat {
 		return
 	}
-	m.Samples = append(m.Samples, Violation{Kind: "cover", ID: "end", W: m.witness(true), Decisions: append([]Decision(nil), m.taken...)})
+	m.Samples = append(m.Samples, Violation{Kind: "cover", ID: "end", Phase: m.Phase, W: m.witness(true), Decisions: append([]Decision(nil), m.taken...)})
 }
 
 func (m *Machine) knownDisj() *term.Term {
@@ -361,6 +382,9 @@ func (m *Machine) ViolCounts() map[string]int { return m.violSeen }
 
 // reportOther reports a panic / deadlock / race of the current path if the path is feasible.
 func (m *Machine) reportOther(kind, msg string) {
+	if m.IgnorePanics && (kind == "panic" || kind == "deadlock") {
+		return
+	}
 	kn := m.knownDisj()
 	res := m.sol.Check(append(m.pc, m.st.Not(kn)))
 	if res == smt.Sat {
@@ -502,6 +526,18 @@ func (m *Machine) assume(c *term.Term) {
 }
 
 func (m *Machine) assert(id string, c *term.Term) {
+	if len(m.OnlyAsserts) > 0 {
+		// a harness shared by several properties: only this property's assertions are obligations
+		keep := false
+		for _, p := range m.OnlyAsserts {
+			if strings.HasPrefix(id, p) {
+				keep = true
+			}
+		}
+		if !keep {
+			return
+		}
+	}
 	m.Obligs++
 	if v, ok := c.ConstVal(); ok && v == 1 {
 		m.Discharged++
